@@ -487,3 +487,71 @@ func genAlnum(tp *tape.Tape, n int) string {
 	}
 	return b.String()
 }
+
+// c10Pan: an approve session is cut by a dropped connection at every change
+// request in turn (the candidate configuration keeps what was set so far, the
+// commit never happened); a second session must converge like any other.
+func c10Pan(c *Ctx, tp *tape.Tape, extra map[string]any) *Failure {
+	cs := GenPanCase(tp)
+	o := PanOpts{Front: []string{"do-approve", "drc"}[tp.Next(2)], Timeout: 60}
+	rb := c.LivePan(cs.Files, cs.Node(), o)
+	var ks []int
+	for _, rec := range rb.Node.Transcr {
+		if rec.Class == "script" {
+			if rec.Reject != "" {
+				c.Count("skipped_rejected_script", 1)
+				return nil
+			}
+			ks = append(ks, rec.K)
+		}
+	}
+	if rb.Res.Exit != 0 || rb.Trouble != "" || rb.Res.Panic != "" || len(ks) == 0 {
+		c.Count("base_not_usable", 1)
+		return nil
+	}
+	c.NonTrivial(gen.PanDeviceXML(cs.A, cs.Spell), cs.Files["router"])
+	only := -1
+	if extra != nil {
+		only = toInt(extra["cut"])
+	}
+	for _, k := range ks {
+		if only >= 0 && k != only {
+			continue
+		}
+		n := cs.Node()
+		n.Faults = []panosdev.Fault{{At: k, Kind: "transport-error"}}
+		r1 := c.LivePan(cs.Files, n, o)
+		c.Res.Evaluations++
+		c.Count("cuts", 1)
+		if r1.Res.Exit == 0 {
+			c.Count("cut_run_exit_0", 1)
+			continue
+		}
+		n2 := panosdev.NewNode(n.Cand.Clone())
+		n2.Running = n.Running.Clone()
+		if f := panJudgeConverge(c, cs, n2, PanOpts{Front: "drc", Timeout: 60}, "C03", "resume-"); f != nil {
+			f.Extra = map[string]any{"cut": k}
+			f.Input["cut"] = fmt.Sprintf("connection closed at request %d of the first session", k)
+			if !c.NoteKnown(f.Key) {
+				return f
+			}
+		}
+		if c.TimeUp() {
+			return nil
+		}
+	}
+	return nil
+}
+
+func init() {
+	old := Registry["C10"]
+	Registry["C10"] = func(c *Ctx, tp *tape.Tape, extra map[string]any) *Failure {
+		switch tp.Next(6) {
+		case 4:
+			return c10Pan(c, tp, extra)
+		case 5:
+			return c10Nsx(c, tp, extra)
+		}
+		return old(c, tp, extra)
+	}
+}
